@@ -59,10 +59,35 @@ func checkC17(p *Prog, r *Report) {
 	if nil == glob {
 		rCand.Bad(fnName(fd)+":glob", fd.Pos(), "candidates are not found with fs.Glob on the directory")
 	}
-	if nil == compact {
+	var ranged ssa.Value
+	dotAtCollection := false
+	if nil == compact && nil != glob {
+		/* The other way to a sorted list without duplicates: the sorted
+		keys of a set filled from the Glob results. */
+		if set := setCandidates(fd, glob); nil != set {
+			switch {
+			case !set.onlyGlob:
+				rCand.Bad(fnName(fd)+":only-glob-results", posOf(set.keys), "the name set also receives values not returned by fs.Glob")
+			case !set.sorted:
+				rCand.Bad(fnName(fd)+":sorted-unique", posOf(set.keys), "the keys of the name set are not sorted before use: order is undefined")
+			default:
+				rCand.OK(fnName(fd)+":only-glob-results", posOf(glob), "the name set is filled only from fs.Glob results")
+				rCand.OK(fnName(fd)+":sorted-unique", posOf(set.keys), "sorted keys of a set: sorted and without duplicates")
+				ranged = set.ranged
+				dotAtCollection = set.dotFiltered
+			}
+			for _, x := range valueRoots(glob.Common().Args[0], nil) {
+				if "call" == x.Kind && ("os.DirFS" == x.Callee || "io/fs.Sub" == x.Callee) {
+					continue
+				}
+				rCand.Bad(fnName(fd)+":glob-fs", posOf(glob), "fs.Glob runs on %s, not on the directory's own FS", x)
+			}
+		} else {
+			rCand.Bad(fnName(fd)+":compact", fd.Pos(), "the file names are not de-duplicated with slices.Compact (nor collected in a set whose sorted keys are ranged)")
+		}
+	} else if nil == compact {
 		rCand.Bad(fnName(fd)+":compact", fd.Pos(), "the file names are not de-duplicated with slices.Compact")
 	}
-	var ranged ssa.Value
 	if nil != glob && nil != compact {
 		names := compact.Common().Args[0]
 		/* names derives only from glob results. */
@@ -123,7 +148,7 @@ func checkC17(p *Prog, r *Report) {
 		if nil == elem {
 			rGuard.Bad(fnName(fd)+":ranges-sorted", fd.Pos(), "the loop does not range over the sorted, de-duplicated names")
 		} else {
-			rCand.OK(fnName(fd)+":ranges-sorted", posOf(elem), "the per-file loop ranges over Compact(Sort(names))")
+			rCand.OK(fnName(fd)+":ranges-sorted", posOf(elem), "the per-file loop ranges over the sorted, de-duplicated names")
 			/* The dot test on this name. */
 			var dotIf *ssa.If
 			for _, b := range fd.Blocks {
@@ -142,7 +167,9 @@ func checkC17(p *Prog, r *Report) {
 					}
 				}
 			}
-			if nil == dotIf {
+			if nil == dotIf && dotAtCollection {
+				rGuard.OK(fnName(fd)+":below-dot-test", posOf(elem), "names starting with '.' never enter the candidate set (tested where the set is filled)")
+			} else if nil == dotIf {
 				rGuard.Bad(fnName(fd)+":dot-test", posOf(elem), "no test for names starting with '.' in the per-file loop: dot-files are converted and a dangling dot-file symlink makes the conversion fail")
 			} else {
 				dc := decodeCond(dotIf.Cond)
@@ -272,6 +299,21 @@ func checkC17(p *Prog, r *Report) {
 					if sc, ok := ref.(*ssa.Call); ok && ("slices.Sort" == calleeName(sc.Common()) || "sort.Strings" == calleeName(sc.Common())) && sc.Common().Args[0] == ssa.Value(x) {
 						srt = sc
 					}
+				}
+				/* Or consumed at once by slices.Sorted (iterator form). */
+				onlySorted := 0 != len(*x.Referrers())
+				for _, ref := range *x.Referrers() {
+					if _, isDbg := ref.(*ssa.DebugRef); isDbg {
+						continue
+					}
+					sc, ok := ref.(*ssa.Call)
+					if !ok || !strings.HasPrefix(calleeName(sc.Common()), "slices.Sorted") || strings.HasPrefix(calleeName(sc.Common()), "slices.SortedFunc") {
+						onlySorted = false
+					}
+				}
+				if onlySorted {
+					rDet.OK(c, posOf(i), "consumed by slices.Sorted")
+					return
 				}
 				if nil == srt {
 					rDet.Bad(c, posOf(i), "the keys of a map are used without being sorted: which pattern matches first (and so which filter converts a file) changes from call to call")
@@ -503,6 +545,8 @@ func checkFirstMatch(p *Prog, ru *Rule, fr *ssa.Function) {
 	for _, x := range valueRoots(pat, nil) {
 		src = append(src, x.String())
 		switch {
+		case "call" == x.Kind && strings.HasPrefix(x.Callee, "slices.Sorted") && !strings.HasPrefix(x.Callee, "slices.SortedFunc"):
+			sorted = true
 		case "call" == x.Kind && strings.HasSuffix(x.Callee, "maps.Keys"):
 			/* Sorted in this function (checked by the maps.Keys rule). */
 			sorted = true
@@ -617,6 +661,22 @@ func checkNewline(p *Prog, ru *Rule, fr, fd *ssa.Function) {
 		}
 		dc := decodeCond(ifi.Cond)
 		if nil == dc.Y {
+			/* bytes.HasSuffix(b, "\n") / strings.HasSuffix: the append is
+			below the "has no such suffix" edge. */
+			if hc, ok := dc.X.(*ssa.Call); ok {
+				switch calleeName(hc.Common()) {
+				case "bytes.HasSuffix", "strings.HasSuffix":
+					if isNewlineValue(hc.Common().Args[1]) {
+						noSuffix := 1
+						if !dc.Eq {
+							noSuffix = 0
+						}
+						if edgeDominates(ifi, noSuffix, app) {
+							guarded = true
+						}
+					}
+				}
+			}
 			continue
 		}
 		if n, ok := constInt(dc.Y); ok && 10 == n {
@@ -654,4 +714,119 @@ func checkNewline(p *Prog, ru *Rule, fr, fd *ssa.Function) {
 	} else {
 		ru.Bad(fnName(fd)+":writes-converted-part", fd.Pos(), "what the directory loop appends is not the per-file converter's result")
 	}
+}
+
+// nameSet describes candidates collected as the keys of a set.
+type nameSet struct {
+	keys        *ssa.Call /* maps.Keys(set) or slices.Sorted(maps.Keys(set)) */
+	ranged      ssa.Value /* the slice the loop ranges */
+	onlyGlob    bool
+	sorted      bool
+	dotFiltered bool
+}
+
+// setCandidates recognises: set := map[string]T{}; for each Glob result m:
+// set[m] = ...; names := maps.Keys(set); slices.Sort(names) (or
+// slices.Sorted(maps.Keys(set))).
+func setCandidates(fd *ssa.Function, glob *ssa.Call) *nameSet {
+	var out *nameSet
+	eachInstr(fd, func(i ssa.Instruction) {
+		k, ok := i.(*ssa.Call)
+		if !ok || !strings.HasSuffix(strings.SplitN(calleeName(k.Common()), "[", 2)[0], "maps.Keys") {
+			return
+		}
+		m, isMap := resolveCell(k.Common().Args[0]).(*ssa.MakeMap)
+		if !isMap {
+			return
+		}
+		ns := &nameSet{keys: k, ranged: k, onlyGlob: true, dotFiltered: true}
+		/* Sorted? */
+		for _, ref := range *k.Referrers() {
+			if sc, ok := ref.(*ssa.Call); ok {
+				n := calleeName(sc.Common())
+				switch {
+				case "slices.Sort" == n || "sort.Strings" == n:
+					ns.sorted = true
+				case strings.HasPrefix(n, "slices.Sorted") && !strings.HasPrefix(n, "slices.SortedFunc"):
+					ns.sorted, ns.ranged = true, sc
+				}
+			}
+		}
+		/* Inserts. */
+		globRes := extractOf(glob, 0)
+		nIns := 0
+		for _, f := range withAnons(fd) {
+			eachInstr(f, func(j ssa.Instruction) {
+				mu, ok := j.(*ssa.MapUpdate)
+				if !ok || resolveCell(mu.Map) != ssa.Value(m) {
+					return
+				}
+				nIns++
+				key := resolveCell(mu.Key)
+				fromGlob := false
+				if u, ok := key.(*ssa.UnOp); ok && token.MUL == u.Op {
+					if ia, ok := u.X.(*ssa.IndexAddr); ok && nil != globRes && resolveCell(ia.X) == ssa.Value(globRes) {
+						fromGlob = true
+					}
+				}
+				if !fromGlob {
+					ns.onlyGlob = false
+				}
+				/* Below the "does not start with ." edge on this key. */
+				guarded := false
+				for _, b := range f.Blocks {
+					ifi := blockIf(b)
+					if nil == ifi {
+						continue
+					}
+					dc := decodeCond(ifi.Cond)
+					hc, ok := dc.X.(*ssa.Call)
+					if !ok || nil != dc.Y || "strings.HasPrefix" != calleeName(hc.Common()) {
+						continue
+					}
+					if pre, ok := constString(hc.Common().Args[1]); !ok || "." != pre || resolveCell(hc.Common().Args[0]) != key {
+						continue
+					}
+					notDot := 1
+					if !dc.Eq {
+						notDot = 0
+					}
+					if edgeDominates(ifi, notDot, j) {
+						guarded = true
+					}
+				}
+				if !guarded {
+					ns.dotFiltered = false
+				}
+			})
+		}
+		if 0 == nIns {
+			ns.onlyGlob = false
+		}
+		out = ns
+	})
+	return out
+}
+
+// isNewlineValue: the constant "\n", or a one-element byte slice literal
+// holding '\n'.
+func isNewlineValue(v ssa.Value) bool {
+	v = stripConv(v, true)
+	if s, ok := constString(v); ok {
+		return "\n" == s
+	}
+	sl, ok := v.(*ssa.Slice)
+	if !ok {
+		return false
+	}
+	al, ok := sl.X.(*ssa.Alloc)
+	if !ok {
+		return false
+	}
+	els, ok := literalElems(al)
+	if !ok || 1 != len(els) {
+		return false
+	}
+	k, ok := constInt(els[0])
+	return ok && 10 == k
 }
